@@ -61,7 +61,7 @@ type Half struct {
 	W *RecWriter
 	R *ScriptReader
 
-	WKind string // "plain" (default), "flusherr", "flusher"
+	WKind string // "plain" (default), "flusherr", "flusher", "both"
 
 	Accepted bool
 	Done     bool
@@ -74,6 +74,8 @@ func (h *Half) Writer() io.Writer {
 		return FlushErrWriter{h.W}
 	case "flusher":
 		return FlusherWriter{h.W}
+	case "both":
+		return BothWriter{h.W}
 	}
 	return PlainWriter{h.W}
 }
@@ -703,6 +705,16 @@ type FlusherWriter struct{ *RecWriter }
 
 // Flush implements http.Flusher.
 func (f FlusherWriter) Flush() { f.flush() }
+
+// BothWriter has Flush and FlushError, like net/http's response writers, whose Flush is
+// FlushError with the error thrown away.
+type BothWriter struct{ *RecWriter }
+
+// Flush implements http.Flusher.
+func (f BothWriter) Flush() { f.flush() }
+
+// FlushError implements the FlushError interface.
+func (f BothWriter) FlushError() error { return f.flush() }
 
 // PlainWriter is only an io.Writer.
 type PlainWriter struct{ rw *RecWriter }
